@@ -61,6 +61,7 @@ type translator struct {
 	funcs    map[string]*funcSig // by Go name ("fromEntropy", "Language.String")
 	langCons map[string]bool
 	tables   map[string]bool // variables of internal/wordlist
+	strConsts map[string]*string // package-level string constants given by a literal
 	gateCond map[ast.Node]bool
 	assigned map[string]string // package-level identifier -> where it is assigned / mutated outside its declaration
 	done     map[string]string // function -> "" (ok) or reason
@@ -125,7 +126,7 @@ func leanType(t string) string {
 		return "Bool"
 	case "string":
 		return "Str"
-	case "[]byte", "hash":
+	case "[]byte", "hash", "[32]byte":
 		return "Bytes"
 	case "[]string":
 		return "List Str"
@@ -327,7 +328,7 @@ func (f *fnTr) expr(e ast.Expr, want string) tval {
 		pre := append(append(append([]string{}, a.pre...), lo.pre...), hi.pre...)
 		t := f.fresh()
 		switch a.typ {
-		case "[]byte":
+		case "[]byte", "[32]byte":
 			pre = append(pre, fmt.Sprintf("Go.bind (Go.sliceBytes %s %s %s) fun %s =>", a.term, lo.term, hi.term, t))
 			return tval{pre: pre, term: t, typ: "[]byte"}
 		case "string":
@@ -684,14 +685,24 @@ func (f *fnTr) libCall(c *ast.CallExpr, pkg, name, want string) tval {
 	case "crypto/sha256.New":
 		f.need(c, 0)
 		return tval{term: "Go.sha256New", typ: "hash", fresh: true}
+	case "crypto/sha256.Sum256":
+		// sha256.Sum256(b) = the digest of b, as a [32]byte VALUE (a copy): what New/Write/Sum(nil) yields.
+		// The only thing the translation lets one do with it is slice it (`sum[0:1]`).
+		f.need(c, 1)
+		pre, a := f.args(c, []string{"[]byte"})
+		return tval{pre: pre, term: "(Go.hashSum W (Go.hashWrite Go.sha256New " + a[0].term + ") [])", typ: "[32]byte", fresh: true}
 	case "strings.Split":
 		f.need(c, 2)
 		pre, a := f.args(c, []string{"string", "string"})
-		bl, ok := c.Args[1].(*ast.BasicLit)
-		if !ok {
+		var s string
+		if bl, ok := c.Args[1].(*ast.BasicLit); ok {
+			s, _ = strLit(bl.Value)
+		} else if id, ok := c.Args[1].(*ast.Ident); ok && f.vars[id.Name] == "" && f.t.strConsts[id.Name] != nil {
+			// a package-level string constant (a literal that was given a name)
+			s = *f.t.strConsts[id.Name]
+		} else {
 			f.bad(c, "strings.Split with a separator that is not a literal")
 		}
-		s, _ := strLit(bl.Value)
 		it := items(s)
 		if len(it) != 1 {
 			f.bad(c, "strings.Split with a separator of %d items", len(it))
@@ -888,6 +899,8 @@ func (f *fnTr) bindValue(n ast.Node, em *emitter, name string, v tval, define bo
 			f.bad(n, "%s would alias the mutable slice %s", name, v.rebind)
 		}
 	case "int", "int64", "uint", "uint8", "Language", "bool", "string", "map":
+	case "[32]byte":
+		// an array is a value: the variable holds a copy; it is never mutated (element assignment is refused)
 	default:
 		f.bad(n, "assignment of a %s", v.typ)
 	}
@@ -1835,7 +1848,7 @@ func (t *translator) translate(name string) (why string) {
 
 // newTranslator collects the package-level facts the function translation needs.
 func newTranslator(fset *token.FileSet, files map[string]*ast.File, langConsts []string, problems *[]string) *translator {
-	t := &translator{tables: map[string]bool{},fset: fset, files: files, globals: map[string]global{}, funcs: map[string]*funcSig{}, langCons: map[string]bool{},
+	t := &translator{tables: map[string]bool{}, strConsts: map[string]*string{},fset: fset, files: files, globals: map[string]global{}, funcs: map[string]*funcSig{}, langCons: map[string]bool{},
 		assigned: map[string]string{}, done: map[string]string{}, out: map[string]string{}, deps: map[string][]string{}}
 	for _, c := range langConsts {
 		t.langCons[c] = true
@@ -1846,6 +1859,7 @@ func newTranslator(fset *token.FileSet, files map[string]*ast.File, langConsts [
 		names = append(names, rel)
 	}
 	sort.Strings(names)
+	consts := newConstTable(files)
 	errNames := map[string]string{"ErrWordLen": "Err.wordLen", "ErrEntropyLen": "Err.entropyLen", "ErrChecksumIncorrect": "Err.checksum"}
 	for _, rel := range names {
 		file := files[rel]
@@ -1900,6 +1914,12 @@ func newTranslator(fset *token.FileSet, files map[string]*ast.File, langConsts [
 					case *ast.CallExpr:
 						se, ok := v.Fun.(*ast.SelectorExpr)
 						if !ok {
+							// const n = Language(len(_Language_index) - 1): a typed integer constant
+							if x.Tok == token.CONST {
+								if n, ok := consts.lookup(name); ok {
+									t.globals[name] = global{typ: "const:" + consts.typ[name], term: n.String()}
+								}
+							}
 							continue
 						}
 						pid, ok := se.X.(*ast.Ident)
@@ -1908,11 +1928,10 @@ func newTranslator(fset *token.FileSet, files map[string]*ast.File, langConsts [
 						}
 						switch imports[pid.Name] + "." + se.Sel.Name {
 						case "math/big.NewInt":
-							if len(v.Args) == 1 {
-								if bl, ok := v.Args[0].(*ast.BasicLit); ok && bl.Kind == token.INT && x.Tok == token.VAR {
-									if n, ok := intLit(Lit{Kind: "INT", Val: bl.Value}); ok && n.IsInt64() {
-										t.globals[name] = global{typ: "*big.Int", lean: "Go.bigNewInt " + intLeanLit(n), term: leanId(name)}
-									}
+							if len(v.Args) == 1 && x.Tok == token.VAR {
+								// the argument is an integer literal or an integer constant expression (consteval.go)
+								if n, ok := consts.eval(v.Args[0]); ok && n.IsInt64() {
+									t.globals[name] = global{typ: "*big.Int", lean: "Go.bigNewInt " + intLeanLit(n), term: leanId(name)}
 								}
 							}
 						case "errors.New":
@@ -1924,6 +1943,8 @@ func newTranslator(fset *token.FileSet, files map[string]*ast.File, langConsts [
 						if v.Kind == token.STRING && x.Tok == token.CONST {
 							if s, ok := strLit(v.Value); ok {
 								t.globals[name] = global{typ: "string", lean: leanItems(items(s)), term: leanId(name)}
+								sv := s
+								t.strConsts[name] = &sv
 							}
 						}
 						// const name = 11   /   const name int = 11   (named magic numbers)
@@ -1936,6 +1957,13 @@ func newTranslator(fset *token.FileSet, files map[string]*ast.File, langConsts [
 								if typ == "untyped" || typ == "int" || typ == "int64" || typ == "uint" {
 									t.globals[name] = global{typ: "const:" + typ, term: n.String()}
 								}
+							}
+						}
+					case *ast.BinaryExpr, *ast.ParenExpr, *ast.UnaryExpr, *ast.Ident:
+						// const name = 1<<wordIndexBits - 1   (a named magic number with its derivation)
+						if x.Tok == token.CONST {
+							if n, ok := consts.lookup(name); ok {
+								t.globals[name] = global{typ: "const:" + consts.typ[name], term: n.String()}
 							}
 						}
 					case *ast.CompositeLit:
